@@ -167,7 +167,10 @@ where
     ) -> Result<()> {
         // check if the range is valid
         let leaves_len = leaves.len();
-        if start + leaves_len > self.capacity() {
+        if start
+            .checked_add(leaves_len)
+            .map_or(true, |end| end > self.capacity())
+        {
             return Err(Report::msg("provided range exceeds set size"));
         }
         if leaves_len == 0 {
